@@ -338,18 +338,20 @@ func (p *phaser) alignAgainstRefsAA(seq Sequence, orfsaa []Sequence) (ph PhasedS
 		return
 	}
 
+	// The phased sequences are copies: they do not share their residues
+	// with the input sequence (nor with each other)
 	ph = PhasedSequence{
 		Err:      nil,
 		Removed:  false,
 		Position: beststart,
 		NtSeq: NewSequence(bestseq.Name(),
-			bestseq.SequenceChar()[beststart:bestend],
+			append([]uint8{}, bestseq.SequenceChar()[beststart:bestend]...),
 			bestseq.Comment()),
 		CodonSeq: NewSequence(bestseq.Name(),
-			bestseq.SequenceChar()[beststart:bestend],
+			append([]uint8{}, bestseq.SequenceChar()[beststart:bestend]...),
 			bestseq.Comment()),
 		AaSeq: NewSequence(bestseqaa.Name(),
-			bestseqaa.SequenceChar()[beststartaa:bestendaa],
+			append([]uint8{}, bestseqaa.SequenceChar()[beststartaa:bestendaa]...),
 			bestseqaa.Comment()),
 		Ali: bestali,
 	} // We set a threshold for matches over the alignment length...
@@ -438,12 +440,14 @@ func (p *phaser) alignAgainstRefsNT(seq Sequence, orfs []Sequence) (ph PhasedSeq
 		return
 	}
 
+	// The phased sequences are copies: they do not share their residues
+	// with the input sequence (nor with each other)
 	ph = PhasedSequence{
 		Err:      nil,
 		Removed:  false,
 		Position: beststart,
 		NtSeq: NewSequence(bestseq.Name(),
-			bestseq.SequenceChar()[beststart:bestend],
+			append([]uint8{}, bestseq.SequenceChar()[beststart:bestend]...),
 			bestseq.Comment()),
 		// For two next sequences we take into account the right phase
 		// (taking into account initial gaps)
@@ -453,10 +457,10 @@ func (p *phaser) alignAgainstRefsNT(seq Sequence, orfs []Sequence) (ph PhasedSeq
 		// --N NNN NNN => phase 1
 		// --- NNN NNN => phase 0
 		CodonSeq: NewSequence(bestseq.Name(),
-			bestseq.SequenceChar()[beststart+phase:bestend],
+			append([]uint8{}, bestseq.SequenceChar()[beststart+phase:bestend]...),
 			bestseq.Comment()),
 		AaSeq: NewSequence(bestseq.Name(),
-			bestseq.SequenceChar()[beststart+phase:bestend],
+			append([]uint8{}, bestseq.SequenceChar()[beststart+phase:bestend]...),
 			bestseq.Comment()),
 		Ali: bestali,
 	}
